@@ -323,6 +323,17 @@ def clone_value(st, v):
     raise Unsupported('clone of ' + type(v).__name__)
 
 
+@pattern(r'^<\(.*\) as Clone>::clone$')
+def m_tuple_clone(c):
+    """tuples of plain data / strings / integers: field-wise clone"""
+    v = deref(c.st, c.args[0])
+    if not isinstance(v, Struct):
+        raise Unsupported('tuple clone of ' + type(v).__name__)
+    if v.lazy is not None:
+        raise Unsupported('clone of a lazily created tuple')
+    return Struct(v.ty, {k: clone_value(c.st, f) for k, f in v.fields.items()})
+
+
 # ------------------------------------------------------------------ adaptor constructors
 
 def _adaptor(kind, **extra):
@@ -782,7 +793,7 @@ def k_extend(st, fr, rv):
 
 # ------------------------------------------------------------------ generic-T helpers (generic MIR bodies)
 
-@pattern(r'^<&?T as (PartialEq|Eq)(<.*>)?>::(eq|ne)$|^<&T as PartialEq<&T>>::(eq|ne)$')
+@pattern(r'^<&?T as (PartialEq|Eq)(<.*>)?>::(eq|ne)$|^<&T as PartialEq<&T>>::(eq|ne)$|^<&*\(.*\) as PartialEq(<.*>)?>::(eq|ne)$')
 def m_generic_eq(c):
     a = deref(c.st, c.args[0])
     b = deref(c.st, c.args[1])
